@@ -20,7 +20,7 @@ func planC13(tier string) []phase {
 		{Name: "hist", Shards: hist},
 		{Name: "reuse", Shards: 8},
 		{Name: "tables", Shards: 1},
-		{Name: "conc", Shards: combos, Race: true, Serial: false, Timeout: map[bool]time.Duration{false: 8 * time.Minute, true: 40 * time.Minute}[tier == "thorough"],
+		{Name: "conc", Shards: combos, Race: true, Serial: false, MemCap: 14 << 30, Timeout: map[bool]time.Duration{false: 8 * time.Minute, true: 40 * time.Minute}[tier == "thorough"],
 			Env: []string{"GORACE=halt_on_error=0 exitcode=0 log_path=%DIR%/race-%SHARD%", "GOMAXPROCS=16"}},
 	}
 	if tier == "thorough" {
